@@ -262,7 +262,14 @@ def stream_checks(ctx, kf):
             for flag in ([], ["-n"]):
                 outp = os.path.join(tmpd, "out.records")
                 try:
-                    rdump.main([path, path, "-s", text, "-w", outp] + flag)
+                    # ... with a source that cannot be opened between them: it is skipped, nothing of the others is dropped
+                    missing = os.path.join(tmpd, "no-such-source.records")
+                    import logging
+                    logging.disable(logging.CRITICAL)         # the "cannot open" message of the skipped source
+                    try:
+                        rdump.main([path, missing, path, "-s", text, "-w", outp] + flag)
+                    finally:
+                        logging.disable(logging.NOTSET)
                     with RecordReader(outp) as rd:
                         got = [(x._desc.name, x._pack()) for x in rd]
                     err = None
@@ -271,7 +278,7 @@ def stream_checks(ctx, kf):
                 ctx.count_case(("rdump", si, text, tuple(flag)))
                 if got != want_obs + want_obs:
                     ctx.violation(
-                        "rdump -s %r %s over two mixed sources wrote %s, expected %d records" % (text, flag, err or len(got), 2 * len(want)),
+                        "rdump -s %r %s over two mixed sources (and a missing one between them) wrote %s, expected %d records" % (text, flag, err or len(got), 2 * len(want)),
                         dict(kind="rdump-filter", selector=text, flags=flag, records=[repr(x) for x in recs], error=err))
                     return
     ctx.notes.append("mixed-stream filtering: %d streams x %d selectors x {text,interpreted,compiled,rdump,rdump -n}" % (n_streams, len(sels) * len(ops)))
